@@ -42,7 +42,9 @@ Step ==
     /\ UNCHANGED <<stage, W, val, dirn>>
 Finish == stage = "run" /\ Done(s) /\ stage' = "done" /\ UNCHANGED <<W, s, val, dirn>>
 Next == Draw \/ Step \/ Finish
-Spec == Init /\ [][Next]_vars
+Spec == Init /\ [][Next]_vars /\ WF_vars(Next)
+(* the walk ends: every version is polled at most once per direction and every poll is a step *)
+Terminates == <>(stage = "done")
 
 InvStartConsistent == stage = "run" /\ s.polls = <<>> => Consistent(W, W.diff, W.rootmap) /\ \A x \in 1..W.n : ValueOf(W, W.diff, W.rootmap, x) = val[x]
 InvQueues == stage \in {"run", "done"} => Sorted(W, s.qUp) /\ Sorted(W, s.qDown) /\ LawOnce(s) /\ LawBounded(W, s)
